@@ -40,6 +40,7 @@ structure FieldInfo where
   isBytes : Bool         -- issubclass(field.type, bytes)
   bits : Bool            -- field.bits is set
   size : Option Nat      -- field.type.size
+  offset : Bool := false -- field.offset is set and not 0 (an explicitly placed member; fix F86)
   deriving DecidableEq, Repr
 
 structure Cls where
@@ -70,7 +71,7 @@ def metaCall (c : Cls) (args : List Arg) : Route :=
 def structCall (c : Cls) (args : List Arg) (nkw : Nat) : Route :=
   match c.fields, args with
   | [f], [.bytes n] =>
-    if f.isBytes ∧ f.bits = false ∧ f.size = some n then .shortcutStruct
+    if f.isBytes ∧ f.bits = false ∧ f.offset = false ∧ f.size = some n then .shortcutStruct
     else metaCall c args
   | _, [] => if nkw = 0 then .default_ else .init
   | _, _ => metaCall c args
@@ -90,7 +91,7 @@ def unionPost (args : List Arg) (nkw : Nat) : Post :=
   else if args.isEmpty && nkw = 0 then .proxify
   else .asParsed
 
-/-! ### line protocol: (callroute (cls isBytes size|none ((isBytes bits size|none) ...)) (arg ...) nkw) -/
+/-! ### line protocol: (callroute (cls isBytes size|none ((isBytes bits size|none [offset]) ...)) (arg ...) nkw) -/
 
 def parseArg : Sexp → Option Arg
   | .list [.atom "bytes", n] => n.nat?.map .bytes
@@ -107,8 +108,12 @@ def optSize : Sexp → Option (Option Nat)
 def parseField : Sexp → Option FieldInfo
   | .list [b, bits, sz] =>
     match b.nat?, bits.nat?, optSize sz with
-    | some b, some bits, some sz => some ⟨b != 0, bits != 0, sz⟩
+    | some b, some bits, some sz => some ⟨b != 0, bits != 0, sz, false⟩
     | _, _, _ => none
+  | .list [b, bits, sz, off] =>
+    match b.nat?, bits.nat?, optSize sz, off.nat? with
+    | some b, some bits, some sz, some off => some ⟨b != 0, bits != 0, sz, off != 0⟩
+    | _, _, _, _ => none
   | _ => none
 
 def parseCls : Sexp → Option Cls
